@@ -19,7 +19,7 @@ CORPUS_MODS = ["c01", "c02", "c03", "c04", "c05", "c06", "c07", "c08", "c09", "c
 
 
 def builds_needed(tier):
-    return BUILDS
+    return BUILDS + ["avx", "native"]
 
 
 def bounds(tier):
@@ -68,6 +68,9 @@ def shards(tier):
     for b in BUILDS:
         sh.append(("shard_counters", b))
         sh.append(("shard_misuse", (b, None)))
+    # the counter-crossing programs also on the vector builds (the BLAKE2 vector compressions take the counter words as an operand)
+    for b in ("avx", "native"):
+        sh.append(("shard_counters", b))
     if tier == "thorough":
         sh.append(("shard_misuse", ("rel", "memcheck")))
     return sh
